@@ -177,9 +177,41 @@ func fieldByType(base *Term, want string) *Term {
 		}
 	}
 	if found == nil {
+		// a field declared with a narrower, consumer-side interface that the wanted type satisfies holds the same value
+		if wt := typeByStr[want]; wt != nil {
+			for i := 0; i < st.NumFields(); i++ {
+				it, isIface := st.Field(i).Type().Underlying().(*types.Interface)
+				if !isIface || it.NumMethods() == 0 {
+					continue
+				}
+				if types.Implements(wt, it) {
+					if found != nil {
+						return mk("field", "?ambiguous:"+want, 0, nil, base)
+					}
+					found = st.Field(i)
+				}
+			}
+		}
+	}
+	if found == nil {
 		return mk("field", "?missing:"+want, 0, nil, base)
 	}
 	return mk("field", found.Name(), 0, found.Type(), base)
+}
+
+// typeByStr: named types of every loaded package (and pointers to them) by their short type string.
+var typeByStr = map[string]types.Type{}
+
+func registerTypes(pkgs map[string]*types.Package) {
+	for _, p := range pkgs {
+		sc := p.Scope()
+		for _, n := range sc.Names() {
+			if tn, ok := sc.Lookup(n).(*types.TypeName); ok && !tn.IsAlias() {
+				typeByStr[typeStr(tn.Type())] = tn.Type()
+				typeByStr[typeStr(types.NewPointer(tn.Type()))] = types.NewPointer(tn.Type())
+			}
+		}
+	}
 }
 
 func isParam(t *Term, name string) bool { return t != nil && t.Kind == "param" && t.Name == name }
@@ -312,4 +344,31 @@ func shortGlobal(n string) string {
 		return n[i+1:]
 	}
 	return n
+}
+
+
+// sliceElems: the elements of a slice value at the end of a path: an append chain / literal, or an allocation of constant
+// length whose cells were assigned by constant index.
+func sliceElems(s Summary, t *Term) ([]*Term, bool) {
+	if els, ok := chainElems(t); ok {
+		return els, true
+	}
+	if t.Kind == "alloc" {
+		var els []*Term
+		for i := 0; ; i++ {
+			v, ok := s.Mem[mk("cell", fmt.Sprint(i), 0, nil, t).key]
+			if !ok {
+				break
+			}
+			els = append(els, v)
+		}
+		if n, known := knownLen(t); known && n != len(els) && len(els) > 0 {
+			// not every cell assigned: the rest hold zero values
+			for len(els) < n {
+				els = append(els, mk("zero", "", 0, nil))
+			}
+		}
+		return els, len(els) > 0
+	}
+	return nil, false
 }
